@@ -561,6 +561,7 @@ class OsFaults:
         self.calls = []
         self.fired = None
         self.only_in = only_in
+        self.windows = 0
 
     def end(self):
         self.active = False
@@ -634,6 +635,8 @@ class OsFaults:
 
         def w(*a, **kw):
             me.depth += 1
+            if me.active:
+                me.windows = getattr(me, "windows", 0) + 1
             try:
                 return orig(*a, **kw)
             finally:
